@@ -514,6 +514,7 @@ let check (case : Sexp.t) : unit =
       (* ---- DOT *)
       let rk_dot = Hashtbl.create 16 in
       (try
+         if dot = "skip" then raise Exit;
          let pd = parse_dot dot in
          let exp_idx = List.map (fun nd -> nd.idx) nodes in
          let act_idx = List.map (fun (i, _, _) -> i) pd.dnodes in
@@ -537,7 +538,7 @@ let check (case : Sexp.t) : unit =
              match find s with
              | Some pn when (try List.nth pn.children l = Some t with _ -> false) -> ()
              | _ -> fail "dot-edges" (Printf.sprintf "edge n%d -> n%d carries label %d but children[%d] of n%d is not %d" s t l l s t)) pd.dedges
-       with Scan msg -> fail "dot-parse" msg);
+       with Scan msg -> fail "dot-parse" msg | Exit -> bump "tree_without_dot_K_not_2");
       let rk_of tbl = fun (i : nat) -> (match Hashtbl.find_opt tbl (int_of_nat i) with Some rk -> model_rk rk | None -> (fun _ j -> j)) in
       let exp_dot = string_of_chars (dot_text (dot_model (fun v -> v) (nat_of_int p) dv (rk_of rk_dot) arena)) in
       (* ---- Display *)
@@ -566,7 +567,7 @@ let check (case : Sexp.t) : unit =
                                          (String.concat ", " (List.map (fun (l, c) -> Printf.sprintf "%d->%d" l c) exp_pairs)))) dn
        with Scan msg -> fail "display-parse" msg);
       let exp_disp = string_of_chars (display_text (display_model (fun v -> v) dv (rk_of rk_disp) arena)) in
-      let ok_dot = (exp_dot = dot) and ok_disp = (exp_disp = disp) in
+      let ok_dot = (dot = "skip" || exp_dot = dot) and ok_disp = (exp_disp = disp) in
       if ok_dot && ok_disp then bump "mirror_agree";
       match List.rev !fails with
       | (tag, d) :: _ -> result id "VIOL" tag d
